@@ -157,6 +157,7 @@ func (e *Engine) liveness(fn *ssa.Function) *fnLiveness {
 // reachable from it, or (when the block is inside a loop) anywhere in this block. A value without referrer
 // information counts as used.
 var oldLiveness = os.Getenv("VERIF_OLDLIVE") != ""
+var mergeInts = os.Getenv("VERIF_MERGEINTS") != ""
 
 func (l *fnLiveness) usedLater(v ssa.Value, block *ssa.BasicBlock, ip int) bool {
 	if oldLiveness {
@@ -406,7 +407,7 @@ func (e *Engine) mergeAtJoin(a, b *State) (*State, bool) {
 		// two different CONCRETE 64-bit integers in one live register are loop counters, indexes or lengths of different
 		// iterations/shapes: merging them into an ite would make every later index, slice bound and tag symbolic
 		if ta, ok := fa.regs[v].(*Term); ok {
-			if tb, ok2 := fb.regs[v].(*Term); ok2 && ta.IsConst() && tb.IsConst() && ta.Sort.Kind == 'V' && ta.Sort.Width == 64 && ta.Val != tb.Val {
+			if tb, ok2 := fb.regs[v].(*Term); ok2 && !mergeInts && ta.IsConst() && tb.IsConst() && ta.Sort.Kind == 'V' && ta.Sort.Width == 64 && ta.Val != tb.Val {
 				return jf("live register holds different concrete integers: " + fa.fn.Name() + "." + v.Name())
 			}
 		}
